@@ -61,10 +61,13 @@ type Case struct {
 	StateID    *uint32  `json:"state_id"`
 	Ident      int      `json:"ident"`      // which local identity the settings carry
 	Configured []string `json:"configured"` // Settings.HostIPAddresses
-	Endpoint   string   `json:"endpoint"`   // local address of the transport
-	HbH        uint32   `json:"hbh"`
-	E2E        uint32   `json:"e2e"`
-	Together   bool     `json:"together"` // the application request follows the CER in the same segment
+	// Singular: a single configured address is given through the older field
+	// Settings.HostIPAddress instead of the list.
+	Singular bool   `json:"singular,omitempty"`
+	Endpoint string `json:"endpoint"` // local address of the transport
+	HbH      uint32 `json:"hbh"`
+	E2E      uint32 `json:"e2e"`
+	Together bool   `json:"together"` // the application request follows the CER in the same segment
 }
 
 const (
@@ -358,6 +361,9 @@ func run(c Case, deferV6 bool) *ev.Failure {
 		}
 		st.HostIPAddresses = append(st.HostIPAddresses, datatype.Address(ip))
 	}
+	if c.Singular && len(st.HostIPAddresses) == 1 {
+		st.HostIPAddress, st.HostIPAddresses = st.HostIPAddresses[0], nil
+	}
 	machine := sm.New(st)
 
 	stop := make(chan struct{})
@@ -620,6 +626,7 @@ func secondary(c *Case, i uint64) {
 	pick := func(n int) int { v := int(h % uint64(n)); h = mix(h); return v }
 	c.Endpoint = endpointsAll[pick(len(endpointsAll))]
 	c.Configured = configs[pick(len(configs))]
+	c.Singular = len(c.Configured) == 1 && pick(2) == 0
 	c.HbH = idPool[pick(len(idPool))]
 	c.E2E = idPool[pick(len(idPool))]
 	c.Ident = pick(len(idents))
@@ -730,6 +737,7 @@ func genCase(t *rapid.T) Case {
 	}
 	c.Ident = rapid.IntRange(0, len(idents)-1).Draw(t, "ident")
 	c.Configured = configs[rapid.IntRange(0, len(configs)-1).Draw(t, "configured")]
+	c.Singular = len(c.Configured) == 1 && rapid.Bool().Draw(t, "singular")
 	c.Endpoint = rapid.SampledFrom(endpointsAll).Draw(t, "endpoint")
 	c.HbH = rapid.OneOf(rapid.SampledFrom(idPool), rapid.Uint32()).Draw(t, "hbh")
 	c.E2E = rapid.OneOf(rapid.SampledFrom(idPool), rapid.Uint32()).Draw(t, "e2e")
@@ -805,6 +813,9 @@ func classify(c Case) (bool, []string) {
 	switch {
 	case len(c.Configured) > 0:
 		cl = append(cl, fmt.Sprintf("configured-addresses=%d", len(c.Configured)))
+		if c.Singular && len(c.Configured) == 1 {
+			cl = append(cl, "configured-through-Settings.HostIPAddress")
+		}
 	case v6:
 		cl = append(cl, "endpoint-v6-unconfigured")
 	default:
